@@ -1,1 +1,229 @@
-//! (reference for gift: to be written)
+//! GIFT-128 after Banik, Pandey, Peyrin, Sasaki, Sim, Todo, "GIFT: A Small Present" (CHES 2017, IACR ePrint
+//! 2017/622): section 2.1 (round function: SubCells with the 4-bit S-box GS, PermBits with P_128, AddRoundKey),
+//! section 2.2 (key schedule and round constants), 40 rounds.  Bitwise definition, exactly as in the paper
+//! (not the bitsliced / fixsliced form): the state is b_127 ... b_0 held in a `u128` with b_0 the least
+//! significant bit, nibble w_i = b_{4i+3} b_{4i+2} b_{4i+1} b_{4i}; the key state is k_7 || ... || k_0 (16-bit words)
+//! held in a `u128` with k_0 the least significant word.  On bytes both are big-endian (first byte = b_127..b_120),
+//! the convention of the designers' test vectors.
+
+pub const ROUNDS: usize = 40;
+
+/// Table 1: GS
+pub const GS: [u8; 16] = [0x1, 0xa, 0x4, 0xc, 0x6, 0xf, 0x3, 0x9, 0x2, 0xd, 0xb, 0x7, 0x5, 0x0, 0x8, 0xe];
+pub const GS_INV: [u8; 16] = invert(&GS);
+const fn invert(s: &[u8; 16]) -> [u8; 16] {
+    let mut inv = [0u8; 16];
+    let mut i = 0;
+    while i < 16 {
+        inv[s[i] as usize] = i as u8;
+        i += 1;
+    }
+    inv
+}
+
+/// P_128(i) = 4 floor(i/16) + 32 ((3 floor((i mod 16)/4) + (i mod 4)) mod 4) + (i mod 4)
+pub const fn p128(i: usize) -> usize { 4 * (i / 16) + 32 * ((3 * ((i % 16) / 4) + (i % 4)) % 4) + (i % 4) }
+
+/// SubCells: w_i <- GS(w_i) for all 32 nibbles
+pub fn sub_cells(s: u128) -> u128 {
+    let mut out = 0u128;
+    let mut i = 0;
+    while i < 32 {
+        out |= (GS[((s >> (4 * i)) & 0xf) as usize] as u128) << (4 * i);
+        i += 1;
+    }
+    out
+}
+pub fn inv_sub_cells(s: u128) -> u128 {
+    let mut out = 0u128;
+    let mut i = 0;
+    while i < 32 {
+        out |= (GS_INV[((s >> (4 * i)) & 0xf) as usize] as u128) << (4 * i);
+        i += 1;
+    }
+    out
+}
+/// PermBits: b_{P(i)} <- b_i
+pub fn perm_bits(s: u128) -> u128 {
+    let mut out = 0u128;
+    let mut i = 0;
+    while i < 128 {
+        out |= ((s >> i) & 1) << p128(i);
+        i += 1;
+    }
+    out
+}
+pub fn inv_perm_bits(s: u128) -> u128 {
+    let mut out = 0u128;
+    let mut i = 0;
+    while i < 128 {
+        out |= ((s >> p128(i)) & 1) << i;
+        i += 1;
+    }
+    out
+}
+
+/// bit i of x placed at state bit 4 i + off
+pub fn spread(x: u32, off: u32) -> u128 {
+    let mut out = 0u128;
+    let mut i = 0;
+    while i < 32 {
+        out |= (((x >> i) & 1) as u128) << (4 * i + off);
+        i += 1;
+    }
+    out
+}
+
+/// AddRoundKey of GIFT-128 with RK = U || V (u_31..u_0, v_31..v_0):  b_{4i+2} ^= u_i,  b_{4i+1} ^= v_i
+pub fn add_round_key(s: u128, u: u32, v: u32) -> u128 { s ^ spread(u, 2) ^ spread(v, 1) }
+
+/// Round constants: 6-bit affine LFSR (c5,c4,c3,c2,c1,c0) <- (c4,c3,c2,c1,c0, c5 xor c4 xor 1), initialised to zero
+/// and "updated before being used in a given round"; `round_constant(r)` is the value used in round r = 0..39
+pub const fn lfsr_next(c: u8) -> u8 { ((c << 1) & 0x3e) | (((c >> 5) ^ (c >> 4) ^ 1) & 1) }
+pub const fn round_constant(r: usize) -> u8 {
+    let mut c = 0u8;
+    let mut i = 0;
+    while i <= r {
+        c = lfsr_next(c);
+        i += 1;
+    }
+    c
+}
+/// the constant addition: b_{n-1} ^= 1, b_23 ^= c5, b_19 ^= c4, b_15 ^= c3, b_11 ^= c2, b_7 ^= c1, b_3 ^= c0
+pub fn add_constant(s: u128, c: u8) -> u128 {
+    let mut out = s ^ (1u128 << 127);
+    let mut i = 0;
+    while i < 6 {
+        out ^= (((c >> i) & 1) as u128) << (4 * i + 3);
+        i += 1;
+    }
+    out
+}
+
+/// k_i of the key state k_7 || ... || k_0
+pub const fn kword(k: u128, i: usize) -> u16 { (k >> (16 * i)) as u16 }
+/// round key extraction for GIFT-128: U = k_5 || k_4, V = k_1 || k_0
+pub const fn round_key(k: u128) -> (u32, u32) {
+    (((kword(k, 5) as u32) << 16) | kword(k, 4) as u32, ((kword(k, 1) as u32) << 16) | kword(k, 0) as u32)
+}
+/// key state update: k_7 || k_6 || ... || k_1 || k_0  <-  k_1 >>> 2 || k_0 >>> 12 || k_7 || ... || k_3 || k_2
+pub const fn key_update(k: u128) -> u128 {
+    let k1 = kword(k, 1).rotate_right(2);
+    let k0 = kword(k, 0).rotate_right(12);
+    ((k1 as u128) << 112) | ((k0 as u128) << 96) | (k >> 32)
+}
+/// (U, V) for rounds 0..39
+pub fn key_schedule(key: u128) -> [(u32, u32); ROUNDS] {
+    let mut out = [(0u32, 0u32); ROUNDS];
+    let mut k = key;
+    let mut r = 0;
+    while r < ROUNDS {
+        out[r] = round_key(k);
+        k = key_update(k);
+        r += 1;
+    }
+    out
+}
+
+/// one round: SubCells, PermBits, AddRoundKey (round key and round constant)
+pub fn round(s: u128, u: u32, v: u32, c: u8) -> u128 { add_constant(add_round_key(perm_bits(sub_cells(s)), u, v), c) }
+pub fn inv_round(s: u128, u: u32, v: u32, c: u8) -> u128 { inv_sub_cells(inv_perm_bits(add_round_key(add_constant(s, c), u, v))) }
+
+/// the same round with arbitrary 32-bit masks on the three bit positions of every nibble that the round key
+/// and constant can reach (bit 2: U, bit 1: V, bit 3: constants); `round` is the instance
+/// mask3 = 1 << 31 | c5..c0 at bits 5..0
+pub fn round_masks(s: u128, m2: u32, m1: u32, m3: u32) -> u128 { perm_bits(sub_cells(s)) ^ spread(m2, 2) ^ spread(m1, 1) ^ spread(m3, 3) }
+pub fn inv_round_masks(s: u128, m2: u32, m1: u32, m3: u32) -> u128 { inv_sub_cells(inv_perm_bits(s ^ spread(m2, 2) ^ spread(m1, 1) ^ spread(m3, 3))) }
+/// the constant of round r as a bit-3 mask
+pub const fn constant_mask(r: usize) -> u32 { (1u32 << 31) | round_constant(r) as u32 }
+
+pub fn encrypt_with(rk: &[(u32, u32); ROUNDS], p: u128) -> u128 {
+    let mut s = p;
+    let mut r = 0;
+    while r < ROUNDS {
+        s = round(s, rk[r].0, rk[r].1, round_constant(r));
+        r += 1;
+    }
+    s
+}
+pub fn decrypt_with(rk: &[(u32, u32); ROUNDS], c: u128) -> u128 {
+    let mut s = c;
+    let mut r = ROUNDS;
+    while r > 0 {
+        r -= 1;
+        s = inv_round(s, rk[r].0, rk[r].1, round_constant(r));
+    }
+    s
+}
+pub fn encrypt(key: u128, p: u128) -> u128 { encrypt_with(&key_schedule(key), p) }
+pub fn decrypt(key: u128, c: u128) -> u128 { decrypt_with(&key_schedule(key), c) }
+
+pub fn encrypt_bytes(key: &[u8; 16], block: &[u8; 16]) -> [u8; 16] {
+    encrypt(u128::from_be_bytes(*key), u128::from_be_bytes(*block)).to_be_bytes()
+}
+pub fn decrypt_bytes(key: &[u8; 16], block: &[u8; 16]) -> [u8; 16] {
+    decrypt(u128::from_be_bytes(*key), u128::from_be_bytes(*block)).to_be_bytes()
+}
+
+#[cfg(test)]
+mod tests {
+    use super::*;
+
+    /// section 2.2: the listed constants of the first rounds
+    #[test]
+    fn round_constants_as_listed() {
+        let listed: [u8; 48] = [
+            0x01, 0x03, 0x07, 0x0F, 0x1F, 0x3E, 0x3D, 0x3B, 0x37, 0x2F, 0x1E, 0x3C, 0x39, 0x33, 0x27, 0x0E, 0x1D, 0x3A, 0x35, 0x2B, 0x16,
+            0x2C, 0x18, 0x30, 0x21, 0x02, 0x05, 0x0B, 0x17, 0x2E, 0x1C, 0x38, 0x31, 0x23, 0x06, 0x0D, 0x1B, 0x36, 0x2D, 0x1A, 0x34, 0x29,
+            0x12, 0x24, 0x08, 0x11, 0x22, 0x04,
+        ];
+        for r in 0..48 {
+            assert_eq!(round_constant(r), listed[r]);
+        }
+    }
+
+    /// Table 3 (P_128), first and last rows as printed, and P_128 is a permutation
+    #[test]
+    fn perm_table() {
+        let row0: [usize; 16] = [0, 33, 66, 99, 96, 1, 34, 67, 64, 97, 2, 35, 32, 65, 98, 3];
+        for i in 0..16 {
+            assert_eq!(p128(i), row0[i]);
+        }
+        let row7: [usize; 16] = [28, 61, 94, 127, 124, 29, 62, 95, 92, 125, 30, 63, 60, 93, 126, 31];
+        for i in 0..16 {
+            assert_eq!(p128(112 + i), row7[i]);
+        }
+        let mut seen = [false; 128];
+        for i in 0..128 {
+            assert!(!seen[p128(i)]);
+            seen[p128(i)] = true;
+        }
+        assert_eq!(inv_perm_bits(perm_bits(0x0123456789abcdef_fedcba9876543210)), 0x0123456789abcdef_fedcba9876543210);
+        assert_eq!(inv_sub_cells(sub_cells(0x0123456789abcdef_fedcba9876543210)), 0x0123456789abcdef_fedcba9876543210);
+    }
+
+    /// the designers' test vectors for GIFT-128 (github.com/giftcipher/gift, test vectors; also /repo/gift/tests)
+    #[test]
+    fn designers_vectors() {
+        let v: [(u128, u128, u128); 3] = [
+            (0, 0, 0xcd0bd738388ad3f668b15a36ceb6ff92),
+            (0xfedcba9876543210fedcba9876543210, 0xfedcba9876543210fedcba9876543210, 0x8422241a6dbf5a9346af468409ee0152),
+            (0xd0f5c59a7700d3e799028fa9f90ad837, 0xe39c141fa57dba43f08a85b6a91f86c1, 0x13ede67cbdcc3dbf400a62d6977265ea),
+        ];
+        for (k, p, c) in v {
+            assert_eq!(encrypt(k, p), c);
+            assert_eq!(decrypt(k, c), p);
+            assert_eq!(encrypt_bytes(&k.to_be_bytes(), &p.to_be_bytes()), c.to_be_bytes());
+            assert_eq!(decrypt_bytes(&k.to_be_bytes(), &c.to_be_bytes()), p.to_be_bytes());
+        }
+    }
+
+    #[test]
+    fn round_masks_instance() {
+        let s = 0x00112233445566778899aabbccddeeffu128;
+        for r in 0..40 {
+            assert_eq!(round(s, 0xdeadbeef, 0x01234567, round_constant(r)), round_masks(s, 0xdeadbeef, 0x01234567, constant_mask(r)));
+            assert_eq!(inv_round_masks(round_masks(s, 1, 2, 3), 1, 2, 3), s);
+        }
+    }
+}
